@@ -48,7 +48,11 @@ def run(ctx):
         # ---- V2: the generic value v of the generic attribute, in the four situations of the inductive argument
         #   E (an earlier value of this attribute was not UTF-8)  x  T (v is UTF-8)
         def is_utf8_test(a):
-            return a[0] == 'is' and a[2] == 'Ok' and a[1][0] == 'call' and a[1][1].rsplit('::', 1)[-1] == 'from_utf8' and len(a[1][2]) == 1 and a[1][2][0][0] == 'elem'
+            # from_utf8(v) is Ok  <=>  v is valid UTF-8  <=>  String::from_utf8_lossy(v) is Cow::Borrowed (and then borrows v itself)
+            if a[0] != 'is' or a[1][0] != 'call' or len(a[1][2]) != 1 or a[1][2][0][0] != 'elem':
+                return False
+            fn = a[1][1].rsplit('::', 1)[-1]
+            return (a[2] == 'Ok' and fn == 'from_utf8') or (a[2] == 'Cow::Borrowed' and fn == 'from_utf8_lossy')
         tests = [(a, t) for a, t in o.st.pc if is_utf8_test(a)]
         if len({a for a, t in tests}) != 1:
             ctx.fail('V2.single-utf8-test', 'value', loc(B.root), 'each value must be tested for UTF-8 exactly once (found %d tests)' % len(tests)); continue
@@ -99,7 +103,7 @@ def run(ctx):
         extends = [e for e in Bm if e[1].rsplit('::', 1)[-1] in ('extend', 'append')]
         def text_vector(t):
             """the vector of text values: filter_map/map over the value set whose element is the decoded v (or skipped when v is not UTF-8)"""
-            return t[0] == 'many' and values_src_ok(t[1]) and t[3] == (('variant', test[1], 'Ok', 0) if is_text else ('skip',))
+            return t[0] == 'many' and values_src_ok(t[1]) and t[3] == (('variant', test[1], test[2], 0) if is_text else ('skip',))
         def as_bytes_of_text_vector(t):
             return text_vector(t) or (t[0] == 'many' and t[3] == t[2] and text_vector(t[1]))
         sit = '%s value, %s' % ('UTF-8' if is_text else 'non-UTF-8', 'an earlier value was non-UTF-8' if earlier else 'no earlier non-UTF-8 value')
